@@ -145,7 +145,7 @@ Lemma lookup_cases L A c : alphabet_ok A -> table_wf L A -> byte c ->
     end.
 Proof.
   intros [Hn HA] [Hl Hr] Hc. unfold lookup, build_lookup, byte in *.
-  assert (HA' : Forall (fun i : Z => 0 <= i < len (repeat 255 256)) A).
+  assert (HA' : Forall (fun i : Z => 0 <= i < len (repeat invalid_code 256)) A).
   { rewrite Forall_forall in *. intros a Ha. apply HA in Ha. unfold len. rewrite repeat_length. simpl. lia. }
   rewrite scatter_nth; [|lia|].
   - destruct (last_val c (L A) (arange (len A))); auto.
@@ -334,7 +334,7 @@ Proof.
   rewrite (existsb_map_ext (fun r => len A <=? r) (fun c => negb (member A c)) (lookup L A) s)
     by (intros x Hx; apply (P x Hx)).
   rewrite (first_idx_existsb _ s 0).
-  unfold positions, flatnonzero.
+  unfold positions, flatnonzero, invalid_code.
   pose proof (flatnonzero_first (Z.eqb 255) (map (lookup L A) s) 0) as F.
   rewrite (first_idx_map_ext (Z.eqb 255) (fun c => negb (member A c)) (lookup L A) s 0) in F
     by (intros x Hx; apply (P x Hx)).
@@ -500,6 +500,14 @@ Proof.
   intros k [R1 [R2 R3]]. repeat split; try lia. unfold nthZ. eapply firstn_eq_nth. exact Hp. lia.
 Qed.
 
+Lemma retarget_m_ge codes : Forall (fun k => k <= retarget_m codes) codes.
+Proof.
+  destruct codes as [|x r]. constructor.
+  unfold retarget_m, m_retarget_m. rewrite len_cons. pose proof (len_nonneg r).
+  replace (1 + len r >? 0) with true by (symmetry; apply Z.gtb_lt; lia).
+  destruct (maxl_ge r x) as [M1 M2]. constructor; assumption.
+Qed.
+
 Lemma retarget_fixed_sound src dst codes codes' t :
   retarget RFixed src dst codes = Ok codes' -> dec src codes = Some t ->
   (forall raw, src = Alpha raw -> Forall (fun k => 0 <= k < len (alphabet_of raw)) codes) ->
@@ -510,12 +518,12 @@ Proof.
   - specialize (Hw ra eq_refl).
     destruct (zlist_eqb (alphabet_of ra) (alphabet_of rb)) eqn:E.
     + inversion H; subst. apply zlist_eqb_eq in E. rewrite <- E. auto.
-    + set (m := maxl (-1) codes) in *.
+    + unfold m_prefix_len, m_fits in H. set (m := retarget_m codes) in *.
       destruct (zlist_eqb (firstn (Z.to_nat (m + 1)) (alphabet_of ra)) (firstn (Z.to_nat (m + 1)) (alphabet_of rb))) eqn:Ep; [|discriminate].
       destruct (m <? len (alphabet_of rb)) eqn:Em; [|discriminate].
       inversion H; subst codes'. split. reflexivity.
       apply zlist_eqb_eq in Ep. apply Z.ltb_lt in Em.
-      destruct (maxl_ge codes (-1)) as [M1 M2]. fold m in M1, M2.
+      pose proof (retarget_m_ge codes) as M2. fold m in M2.
       destruct (retarget_core (alphabet_of ra) (alphabet_of rb) codes _ Ep) as [t' [E1 E2]].
       * rewrite Forall_forall in *. intros k Hk. specialize (Hw k Hk). specialize (M2 k Hk). simpl in M2. lia.
       * rewrite E1 in Hd. inversion Hd; subst. exact E2.
